@@ -28,6 +28,10 @@ TNew  == IsEv("IterNew") /\ INew(BaseOf(Rec[l]))
 TMask == IsEv("SetMask") /\ ISetMask(SeqSet(Rec[l].mask))
 TNext == /\ IsEv("Next")
          /\ IF Len(Rec[l].ret) = 0 THEN INextNone ELSE INextSome(MvOf(Rec[l].ret))   \* [] = nothing returned
+(* moves passed over by nth / skip / step_by are logged as drawn ("via": "skipped"): they are the moves a second   *)
+(* generator in the same state yields through next() - the Iterator contract defines nth(k) as k+1 calls of next()   *)
+TDrain == /\ IsEv("Drain")
+          /\ IDrain(Rec[l].count, Rec[l].has_last, IF Len(Rec[l].last) = 0 THEN {} ELSE {MvOf(Rec[l].last)})
 TLen  == /\ IsEv("Len") /\ ILen
          /\ (Rec[l].ret = Cardinality(Avail(remaining, mask)) /\ Rec[l].lo = Rec[l].ret /\ Rec[l].hi = Rec[l].ret) = TRUE
 TRemMask == IsEv("RemoveMask") /\ IRemoveMask(SeqSet(Rec[l].mask))
@@ -35,7 +39,7 @@ TRemMove == /\ IsEv("RemoveMove")
             /\ LET x == MvOf(Rec[l].m) IN \E gone \in SUBSET Siblings(remaining, x) : IRemoveMove(x, gone)
 
 TIInit == l = 1 /\ remaining = {} /\ mask = AllSquares /\ pristine = TRUE /\ fresh = TRUE /\ out = [op |-> "none"]
-TINext == TNew \/ TMask \/ TNext \/ TLen \/ TRemMask \/ TRemMove
+TINext == TNew \/ TMask \/ TNext \/ TLen \/ TRemMask \/ TRemMove \/ TDrain
 TISpec == TIInit /\ [][TINext]_tivars
 
 (* The spec branches (sibling don't-care), so acceptance is "some branch    *)
